@@ -15,7 +15,8 @@ import pipecheck
 
 PUNCT = "!\"#$%&'()*+,-./:;<=>?@[\\]^_`{|}~"
 ALPHA = list("abcXYZ019") + list(PUNCT) + [" ", " ", "\t", "é", "ß", "中", "𝒳", "¡", "«", "—", "\xa0", " ", "​", "‍", "İ"]
-CTRL = ["\x01", "\x0b", "\x0c", "\x1c", "\x7f", "\x85"]
+CTRL = ["\x01", "\x0b", "\x0c", "\x1c", "\x7f", "\x85", "\x1f", "\x1e"]
+UNI_WS = "".join(map(chr, [9, 10, 11, 12, 13, 32, 0x85, 0xA0, 0x1680] + list(range(0x2000, 0x200C)) + [0x2028, 0x2029, 0x202F, 0x205F, 0x3000]))
 NAMED = {"&": "&amp;", "<": "&lt;", ">": "&gt;", '"': "&quot;", "*": "&ast;", "[": "&lbrack;", "|": "&vert;", "`": "&grave;", "\\": "&bsol;"}
 
 
@@ -26,7 +27,9 @@ def esc_html(t):
 def gen_t(rng, ctrl):
     n = rng.randrange(1, 9)
     t = "".join(rng.choice(ALPHA + (CTRL if ctrl else [])) for _ in range(n))
-    t = t.strip().strip(" \t\xa0 ")
+    # "without leading / trailing whitespace": whitespace is what Unicode calls White_Space (plus the zero-width blanks of the
+    # alphabet), NOT what str.strip() removes - U+001C..U+001F are control characters, text like any other control character
+    t = t.strip(UNI_WS)
     return t
 
 
